@@ -10,7 +10,7 @@ from ..tree import Arr, Frame, Raised
 from .common import (as_cell, BV, T, cell_ident, isna, kind_of, mk_col, scalar_of, sym_cell, KIND_DTYPE)
 
 POOL = ["a", "b", "c"]
-NA_KIND = {"f": "f", "i": "f", "b": "O", "T": "T", "D": "D", "us": "us", "U": "U", "O": "O"}
+NA_KIND = {"f": "f", "i": "f", "b": "O", "T": "T", "D": "D", "us": "us", "U": "U", "O": "O", "td": "td"}
 
 def promoted_equal(out_cell, out_kind, in_cell, in_kind):
     """the stored input value after NumPy promotion to the result dtype"""
@@ -226,8 +226,10 @@ def harnesses(tier):
         for m in ("rbind", "cbind", "update", "modify", "select", "unselect", "rename", "colnames"):
             hs.append(Reshape(m, ["f", "i", "T"], 2, "one" if m == "rbind" else ""))
         hs.append(Reshape("rbind", ["b", "f", "i"], 1, "one"))
+        hs.append(Reshape("rbind", ["td", "us", "T"], 1, "one"))
+        hs.append(Reshape("update", ["td", "f", "i"], 2))
     else:
-        for kinds in (["f", "i", "T"], ["b", "D", "U"], ["i", "O", "us"]):
+        for kinds in (["f", "i", "T"], ["b", "D", "U"], ["i", "O", "us"], ["td", "f", "T"]):
             for m in ("rbind", "cbind", "update", "modify", "select", "unselect", "rename", "colnames"):
                 hs.append(Reshape(m, kinds, 2))
         hs.append(Reshape("rbind", ["f", "i", "b"], 3, "one"))
